@@ -176,6 +176,13 @@ pub fn shapes<V: VariableBaseMSM>(io: &GroupIo<V>, rep: &mut Report, rng: &mut R
                             }
                         }
                     }
+                    // chunked streams with MORE scalars than bases have no defined pairing: documented to be refused
+                    if rix == 0 {
+                        rep.class("msm_chunks: more scalars than bases (must be refused)");
+                        if guard(|| V::msm_chunks(&short_b, &&ss[..])).is_ok() {
+                            rep.violation(sig("msm_chunks", "accepts-more-scalars-than-bases"), json!({"group": io.name, "bases": n - 1, "scalars": n}));
+                        }
+                    }
                     // unchecked: truncated to the shorter input
                     let exp_short = (io.naive)(short_b, &ks[..n - 1]);
                     for (b, s) in [(short_b, &ss[..]), (&bases[..], short_s)] {
@@ -455,6 +462,7 @@ const REQUIRED_SHAPES: &[&str] = &[
     "length >= 32 (window from ln)",
     "mismatched lengths",
     "msm_chunks: more bases than scalars",
+    "msm_chunks: more scalars than bases (must be refused)",
     "scalars: all zero",
     "scalars: all one (unit-scalar shortcut)",
     "scalars: all r-1",
